@@ -162,6 +162,8 @@ SUMMARIES: dict[str, Summary] = {
     "dataclasses.field": Summary(NONE, "class-body only"),
     "functools.wraps": Summary(NONE, "decorator factory"),
     "contextlib.suppress": Summary(NONE, "constructor"),
+    "asyncio.timeouts.timeout": Summary(NONE, "constructor of the context manager; the TimeoutError is raised when the `async with` block is left (CM_EXIT_RAISES)"),
+    "asyncio.timeouts.timeout_at": Summary(NONE, "constructor of the context manager; see CM_EXIT_RAISES"),
     "asyncio.tasks.sleep": Summary(NONE, "only CancelledError (BaseException)"),
     "asyncio.tasks.create_task": Summary(NONE, "needs a running loop (always true inside a coroutine)"),
     "asyncio.tasks.gather": Summary("GATHER", "propagates the first exception of its awaitables (modelled: union of argument coroutines)"),
@@ -341,4 +343,12 @@ FALLBACK_MRO = {
     ],
     "json.decoder.JSONDecodeError": ["json.decoder.JSONDecodeError", "builtins.ValueError", "builtins.Exception", "builtins.BaseException", "builtins.object"],
     "serial.serialutil.SerialException": ["serial.serialutil.SerialException", "builtins.OSError", "builtins.Exception", "builtins.BaseException", "builtins.object"],
+}
+
+
+# Context managers whose __exit__/__aexit__ raises: exception classes raised at the end of the with block
+# (i.e. *outside* any try statement that is nested inside the block).
+CM_EXIT_RAISES = {
+    "asyncio.timeouts.timeout": ["builtins.TimeoutError"],
+    "asyncio.timeouts.timeout_at": ["builtins.TimeoutError"],
 }
